@@ -206,7 +206,8 @@ def check_short_input(rc: RuleCtx, rule: str, fi, extra_args=None, allow=None, l
         raise AnalysisError(f"{fi.qualname}: not modelled: {e}")
     # (the exits that hand back the input itself are judged here: each must be confined to at most one knee)
     from .common import account_exits
-    account_exits(fi, lambda r: isinstance(r.value, ast.Name) and r.value.id == "knees")
+    from .common import returned_expr as _rexpr
+    account_exits(fi, lambda r: isinstance(_rexpr(fi, r), ast.Name) and _rexpr(fi, r).id == "knees")
     ok = True
     n = 0
     for g, v in out.returns:
